@@ -2309,6 +2309,16 @@ void Validator::ValidatorImpl::validateMathMLElementsChildrenAndSiblings(const X
             && isSecondMathmlSibling(parentNode, node, component)
             && hasOneOrTwoMathmlChildren(node, component);
     }
+
+    // The operand of a qualifier element is an expression like any other.
+
+    if (node->isMathmlElement("degree")
+        || node->isMathmlElement("logbase")
+        || node->isMathmlElement("bvar")) {
+        for (size_t i = 0, iMax = mathmlChildCount(node); i < iMax; ++i) {
+            validateMathMLElementsChildrenAndSiblings(mathmlChildNode(node, i), component);
+        }
+    }
 }
 
 /**
